@@ -315,6 +315,8 @@ var registry = []propertySpec{
 		Harnesses: []harnessSpec{
 			{Name: "VerifC16_Operators", Pkg: "q", Quick: tierSpec{Cases: 9}, Thorough: tierSpec{Cases: 16, Split: 2}, Sched: -1,
 				Bounds: "both operands are strings of 0..2 (thorough 0..3) symbolic bytes over digits, '.', '-', '+', blank, tab, b/B/z/Z; all six operators through the real BinaryExpr against a reference order written from the statement (numbers as exact rationals)"},
+			{Name: "VerifC16_OperatorsUnicode", Pkg: "q", Quick: tierSpec{Cases: 6, Split: 1}, Thorough: tierSpec{Cases: 12, Split: 1}, Sched: -1,
+				Bounds: "operands that are one two-byte character (6 lead bytes: U+00C0.., U+0100.., U+0140.., Greek, Cyrillic; every pair of second bytes 0x80..0xbf by choice) with or without a trailing letter: the operator laws (negation, trichotomy, <= and >=) and reflexivity under surrounding blanks"},
 			{Name: "VerifC16_OperatorsParsed", Pkg: "q", Quick: tierSpec{Cases: 29}, Thorough: tierSpec{Cases: 29}, Sched: -1,
 				Bounds: "28 concrete operand pairs in the spellings outside the symbolic alphabet (exponents, hex, underscores, inf, nan, long mantissas, non-ASCII) and one symbolic byte per side, written as the query \"l\" op \"r\" through tokenizer, parser and engine"},
 			{Name: "VerifC16_Functions", Pkg: "q", Quick: tierSpec{Cases: 28 * 5}, Thorough: tierSpec{Cases: 28 * 5}, Sched: -1,
